@@ -1,7 +1,10 @@
 (* C03 — each element is constructed once and destroyed once.  Property theorems for etl::pair and
    etl::tuple (C03.ModelAgg): for EVERY number k of members, both element flavours and EVERY history
    of copy/move assignment, self assignment, copy/move construction of a scoped third object, swap
-   and self swap on two objects, from their construction to their destruction.  No operation has a
+   and self swap on two objects, construction of a scoped object from k caller-side objects by copy /
+   by move (pair(T1 const&, T2 const&), pair(U1&&, U2&&), tuple(Ts const&...), tuple(Args&&...), the
+   converting constructors pair(pair<U1, U2> const&) / (pair<U1, U2>&&)) and the converting assignments
+   from a pair<U1, U2>, from their construction to their destruction.  No operation has a
    precondition, so there is no hypothesis. *)
 From Tetl Require Import Lib.Base C03.Trace C03.Model C03.ModelAgg C03.ProofsAgg C03.ProofsAggSelf.
 
